@@ -10,6 +10,7 @@ import GcpVerif.Driver.Pool
 import GcpVerif.Driver.Checksum
 import GcpVerif.Driver.KeyPath
 import GcpVerif.Driver.Prober
+import GcpVerif.Driver.Config
 open GcpVerif.Driver
 
 structure DrvState where
@@ -31,6 +32,8 @@ def handleLine (st : DrvState) (ln : Nat) (line : String) : DrvState :=
   | "pb" :: toks =>
     let (sess, rep) := PbDrv.handle st.pb { st.rep with lines := st.rep.lines + 1 } ln toks obs
     { st with pb := sess, rep := rep }
+  | "cfg" :: toks =>
+    { st with rep := CfgDrv.handle { st.rep with lines := st.rep.lines + 1 } ln toks obs }
   | "kp" :: toks =>
     { st with rep := KpDrv.handle { st.rep with lines := st.rep.lines + 1 } ln toks obs }
   | "ck" :: toks =>
